@@ -105,18 +105,44 @@ func H_C17_Merge() {
 		vFail("c17.open")
 		return
 	}
-	for i := 0; i < 3; i++ {
+	// files=0: a single data file, Merge refuses ("at least 2"); files=1: several files, Merge rewrites
+	n := 1
+	if vParam("files") == 1 {
+		n = 3
+	}
+	for i := 0; i < n; i++ {
 		k := []byte{'k', byte('0' + i)}
 		_ = db.Update(func(tx *Tx) error { return tx.Put("a", k, []byte("v"), 0) })
 	}
-	_ = db.Update(func(tx *Tx) error { return tx.Delete("a", []byte("k0")) })
+	if n > 1 {
+		_ = db.Update(func(tx *Tx) error { return tx.Delete("a", []byte("k0")) })
+	}
 	vShare(db)
 	vTrace(true)
 	vReach("c17.merge")
+	// the listed finding covers the unprotected accesses of the functions it names (violation_ids in
+	// known_findings.json); lock balance, deadlocks and accesses from other functions are not covered
 	vKnown("KF-C17-merge-without-lock", true)
-	_ = db.Merge()
+	err = db.Merge()
 	vTrace(false)
+	vAssert("c17.merge-outcome", (err == nil) == (n > 1))
 	vAssert("c17.lock-released", vLockHeld(&db.mu) == 0)
+	vAssert("c17.not-merging-afterwards", !db.isMerging)
+	// the database stays usable: a writer, a reader and Close all get the lock (a lock left held by
+	// Merge shows up here as a self-deadlock in the lock model)
+	err = db.Update(func(tx *Tx) error { return tx.Put("a", []byte("k9"), []byte("w"), 0) })
+	vAssert("c17.update-after-merge", err == nil)
+	err = db.View(func(tx *Tx) error {
+		e, err := tx.Get("a", []byte("k9"))
+		if err != nil {
+			return err
+		}
+		vAssert("c17.read-after-merge", string(e.Value) == "w")
+		return nil
+	})
+	vAssert("c17.view-after-merge", err == nil)
+	vAssert("c17.lock-released-2", vLockHeld(&db.mu) == 0)
+	vAssert("c17.close-after-merge", db.Close() == nil)
 }
 
 // C18: Backup holds the read lock for the whole copy, and the copy opens to the same observation.
